@@ -171,6 +171,8 @@ def random_plan(seed, idx):
             b.sub(p, ids(ins), eg, r.choice([1, 1, 2, 3, INF_TTL]), counter, ch, eps, extra, second=second, pre=pre)
             if r.random() < 0.12:
                 b.ops[-1]["port"] = 40001  # a second SD endpoint on that peer's host (own session numbering)
+            elif r.random() < 0.06:
+                b.ops[-1]["uf"] = False  # unicast flag clear: the entries are ignored, the message still counts for the sender's session
         elif k < 0.55:
             b.sub(p, ids(ins), eg, 0, counter, ch, eps, pre=[["suback", 0x5555, 1, 1, 1, r.choice([0, 3]), 0]] if r.random() < 0.15 else None)
         elif k < 0.70:
@@ -179,6 +181,11 @@ def random_plan(seed, idx):
                 b.sub(p, ids(ins), eg, r.choice([1, 2, 3, INF_TTL]), counter, "u", eps)
             else:
                 b.find(p, r.choice("um"))
+            if r.random() < 0.2:
+                # the first message of the new incarnation has the unicast flag clear: its entries are ignored,
+                # the reboot it reveals is not; a normal Subscribe follows
+                b.ops[-1]["uf"] = False
+                b.sub(p, ids(ins), eg, r.choice([1, 2, 3, INF_TTL]), counter, "u", eps)
         elif k < 0.755:
             b.call("reject", [ins, r.random() < 0.6])
         elif k < 0.76:
